@@ -110,7 +110,8 @@ BE_RULE = ("Backend scenarios (keys incl. empty, 1-byte, 300-byte, binary, commo
            "families; unique value tokens, on the untyped backends carried as struct, slice, map, struct-with-slice or pointer; TTL modes default / unlimited / per-call positive / negative; SkipRead) are drawn from the "
            "seeded PRNG and executed on ShardedMap, SyncMap and ShardedMapOf under the simulated clock. ")
 prop("C07", quick={"runs": 16000}, thorough={"runs": 100000000, "budget_s": 600},
-     rule=BE_RULE + "One client issues 1-40 operations with clock jumps from ns to days; each result is compared with a reference "
+     arch32={"quick_runs": 600, "thorough_runs": 200000, "workers": 2},
+     rule=BE_RULE + "A slice of the same runs (600 quick, a quarter of the budget thorough) is executed once more by a GOARCH=386 build of the simulator: word size and field alignment are a configuration too. One client issues 1-40 operations with clock jumps from ns to days; each result is compared with a reference "
      "map with per-entry expiry intervals; Walk callbacks and Dump writers fail at chosen positions and the sequence goes on. Non-trivial: >= 2 operations; distinct = distinct (scenario, schedule signature).",
      rules=["C07.<op>: Read/Load/Delete/Len/Walk results equal the reference map's; ExpireAll expires everything incl. never-expiring and leaves the expiry of what had expired before untouched; "
             "expired reads carry value and expiry instant", "C07.walkErr / dumpErr: a failing callback / writer stops the walk, its error and the count of completed callbacks are returned", "C07.walkDel: a Walk callback may delete the entry it is shown (re-entrant use), the walk still visits every entry once",
@@ -142,6 +143,7 @@ prop("C12", quick={"runs": 6000}, thorough={"runs": 100000000, "budget_s": 600},
             "C12.R3 max rank(removed) <= min rank(kept) under the strategy, ranks from the harness access log", "C12.R4 cache_evict equals entries removed"],
      probes=["cycle_without_trigger", "cycle_count_breach", "cycle_eviction_needed", "cycle_memory_limit_breach", "quiet_cycle_count_breach", "order_checked", "long_expired_entry_purged_in_eviction_cycle", "overlapping_serves_of_one_key"])
 prop("C08", quick={"runs": 40000}, thorough={"runs": 100000000, "budget_s": 600},
+     arch32={"thorough_runs": 100000, "workers": 2},
      rule=BE_RULE + "2-16 client tasks issue 1-5 operations each over <= 4 keys (partly constructed hash collisions); in half of the runs the real "
      "janitor runs cleanup/eviction cycles concurrently. Histories (invoke/return event sequence numbers, batch operations expanded into one "
      "pseudo-operation per key) are checked with porcupine against a nondeterministic per-key model. Non-trivial: two operations of different "
@@ -165,6 +167,7 @@ prop("C18", quick={"runs": 12000}, thorough={"runs": 100000000, "budget_s": 600}
      probes=["refresh_counted", "failed_build_counted", "expireAll_counted", "deleteAll_counted", "concurrent_metrics_checked", "deleteAll_concurrent_with_writes", "expireAll_concurrent_with_writes", "colliding_write_replaced_entry"])
 TR_RULE = "Root-driven scenarios drawn from the seeded PRNG; the simulator owns the byte stream / round-tripper / deleters and the iteration order of maps and sync.Map (so every Walk order the source can produce is sampled). "
 prop("C13", quick={"runs": 6000}, thorough={"runs": 100000000, "budget_s": 600},
+     arch32={"thorough_runs": 100000, "workers": 2},
      rule=TR_RULE + "Source caches with 0-300 entries (keys of differing lengths incl. empty, binary and 4095-70000 bytes, values nil / zero / populated structs / maps / pointers, "
      "expiry unset / set / already expired) are dumped and restored along chains of 1-4 hops over ShardedMap<->SyncMap and ShardedMapOf[GV]; a third of the "
      "runs truncate or fail the stream at a byte offset or deliver it in 1-byte reads. Non-trivial: at least one entry; distinct = distinct scenarios x map order.",
